@@ -123,8 +123,8 @@ WideAdd5(x, y) ==
   IN <<s1 % 65536, s2 % 65536, s3 % 65536, s4 % 65536, s5 % 65536>>
 RECURSIVE WideSum5(_, _)
 WideSum5(q, signed) == IF q = <<>> THEN <<0, 0, 0, 0, 0>> ELSE WideAdd5(WideSum5(Tail(q), signed), WideExt(Head(q), signed))
-WideFits(q, dt) == LET s == WideSum5(q, dt = "i8") IN
-                   IF dt = "i8" THEN s[1] = (IF s[2] >= 32768 THEN 65535 ELSE 0) ELSE s[1] = 0
+WideFits(q, dt) == LET s == WideSum5(q, Kind(dt) = "i") IN
+                   IF Kind(dt) = "i" THEN s[1] = (IF s[2] >= 32768 THEN 65535 ELSE 0) ELSE s[1] = 0
 
 \* n times a 64-bit value given as limbs, modulo 2^64, by doubling (n up to millions costs ~22 additions)
 RECURSIVE WideMulN(_, _)
